@@ -1,6 +1,7 @@
 """C18 - copies and derived objects share no mutable state with their source."""
 import ast
 
+from ..flow import Taint, bindings, elementwise_copy, refresh_loops, strip_list
 from ..typedispatch import calls_in, follow
 from ..model import AnalysisError, attr_chain, call_name, if_chain, stmts_in
 
@@ -207,16 +208,37 @@ def path_init(ctx):
 # --------------------------------------------------------------------------- (e)
 def containers(ctx):
     g = ctx.fn("Group.__init__", "R18.1")
-    src = ast.unparse(g).replace(" ", "")
-    ctx.ob("R18.1", "Group.__init__[children copied]", "self.extend(list(map(copy,s)))" in src or "self.extend(map(copy,s))" in src or "self.extend([copy(eforeins)])" in src, "", g.lineno,
-           "a group copy must copy its children element-wise")
+    # the branch taken when the first argument is a Group: its children must be copied one by one
+    ok = False
+    detail = ""
+    for c in ast.walk(g):
+        if isinstance(c, ast.Call) and attr_chain(c.func) == ["self", "extend"] and len(c.args) == 1:
+            src = elementwise_copy(c.args[0])
+            detail = ast.unparse(c)[:80]
+            if src is not None:
+                ok = True
+    raw = [c for c in ast.walk(g) if isinstance(c, ast.Call) and attr_chain(c.func) in (["self", "extend"], ["list", "__init__"]) and c.args and elementwise_copy(c.args[-1]) is None
+           and isinstance(strip_list(c.args[-1]), ast.Name) and strip_list(c.args[-1]).id not in ("self",)]
+    ctx.ob("R18.1", "Group.__init__[children copied]", ok and not raw, detail, g.lineno, "a group copy must copy its children element-wise")
     pc = ctx.fn("Path.__copy__", "R18.1")
-    src = ast.unparse(pc).replace(" ", "")
-    ok = ("path=Path(self)" in src and "segs[i]=copy(segs[i])" in src and "foriinrange(0,len(segs))" in src) or "map(copy,self._segments)" in src or "copy(s)forsinself._segments" in src
-    ctx.ob("R18.1", "Path.__copy__[segments refreshed]", ok, "", pc.lineno, "copy(path) must own copies of all segments")
+    t = Taint(pc, lambda n: isinstance(n, ast.Call) and call_name(n) == "Path" and n.args and isinstance(n.args[0], ast.Name) and n.args[0].id == "self", through_containers=False)
+    # either the new path's own list is refreshed slot by slot, or the new path is built from element-wise copies
+    seglists = {tg.id for tg, v, n in bindings(pc) if isinstance(tg, ast.Name) and isinstance(v, ast.Attribute) and v.attr == "_segments" and isinstance(v.value, ast.Name) and v.value.id in t.names}
+    refreshed = refresh_loops(pc) & seglists
+    built = any(elementwise_copy(a) is not None and attr_chain(elementwise_copy(a)) in (["self", "_segments"], ["self"]) for c in ast.walk(pc) if isinstance(c, ast.Call) for a in c.args) \
+        or any(isinstance(x, ast.Assign) and elementwise_copy(x.value) is not None and attr_chain(elementwise_copy(x.value)) in (["self", "_segments"], ["self"]) for x in ast.walk(pc))
+    rets = [r for r in ast.walk(pc) if isinstance(r, ast.Return)]
+    ok = (bool(refreshed) and bool(rets) and all(isinstance(r.value, ast.Name) and r.value.id in t.names for r in rets)) or built
+    ctx.ob("R18.1", "Path.__copy__[segments refreshed]", ok, "refreshed lists %s of %s" % (sorted(refreshed), sorted(seglists)), pc.lineno, "copy(path) must own copies of all segments")
     sc = ctx.fn("Subpath.__copy__", "R18.1")
-    src = ast.unparse(sc).replace(" ", "")
-    ctx.ob("R18.1", "Subpath.__copy__[path copied]", "Subpath(Path(self._path),self._start,self._end)" in src or "Subpath(copy(self._path),self._start,self._end)" in src, src[-80:], sc.lineno,
+    ok = False
+    for c in ast.walk(sc):
+        if isinstance(c, ast.Call) and call_name(c) == "Subpath" and c.args:
+            a0 = c.args[0]
+            ok = ok or (isinstance(a0, ast.Call) and call_name(a0) in ("Path", "copy") and a0.args and attr_chain(a0.args[0]) == ["self", "_path"])
+    t = Taint(sc, lambda n: isinstance(n, ast.Call) and call_name(n) in ("Path", "copy") and n.args and attr_chain(n.args[0]) == ["self", "_path"], through_containers=False)
+    ok = ok or any(isinstance(c, ast.Call) and call_name(c) == "Subpath" and c.args and isinstance(c.args[0], ast.Name) and c.args[0].id in t.names for c in ast.walk(sc))
+    ctx.ob("R18.1", "Subpath.__copy__[path copied]", ok, "", sc.lineno,
            "a subpath copy is a window onto a copy of the path (which must itself copy the segments, see Path.__init__[from Shape])")
     for qual in ("Rect.__copy__", "Ellipse.__copy__", "Circle.__copy__", "SimpleLine.__copy__", "Polyline.__copy__", "Polygon.__copy__", "Group.__copy__", "Text.__copy__", "Image.__copy__"):
         f = ctx.fn(qual, "R18.1")
@@ -224,8 +246,24 @@ def containers(ctx):
         r = [s for s in f.body if isinstance(s, ast.Return)]
         ctx.ob("R18.1", qual, bool(r) and ast.unparse(r[0].value) == "%s(self)" % cn, ast.unparse(r[0]) if r else "", f.lineno, "copy goes through the copy constructor (property_by_object)")
     ip = ctx.fn("_Polyshape._init_points", "R18.1")
-    src = ast.unparse(ip).replace(" ", "")
-    ctx.ob("R18.1", "_Polyshape._init_points[points copied]", "self.points=list(map(Point,points))" in src, "", ip.lineno, "a polyshape copy owns copies of the points")
+    stores = [x for x in ast.walk(ip) if isinstance(x, ast.Assign) and attr_chain(x.targets[0]) == ["self", "points"]]
+    par = ip.args.args[1].arg if len(ip.args.args) > 1 else None
+    tpar = Taint(ip, lambda n: isinstance(n, ast.Name) and n.id == par, through_containers=False)
+    def fresh(v):
+        v = strip_list(v)
+        if isinstance(v, (ast.List, ast.Tuple)) and not v.elts:
+            return "empty"
+        if isinstance(v, ast.Call) and call_name(v) in ("list", "tuple") and not v.args:
+            return "empty"
+        if isinstance(v, ast.Call) and call_name(v) == "map" and len(v.args) == 2 and isinstance(v.args[0], ast.Name) and v.args[0].id in ("Point", "copy"):
+            return "fresh"
+        if isinstance(v, (ast.ListComp, ast.GeneratorExp)) and isinstance(v.elt, ast.Call) and call_name(v.elt) in ("Point", "copy"):
+            return "fresh"
+        return None
+
+    bad = [x for x in stores if fresh(x.value) is None]
+    good = [x for x in stores if fresh(x.value) == "fresh"]
+    ctx.ob("R18.1", "_Polyshape._init_points[points copied]", bool(good) and not bad, "; ".join(ast.unparse(x)[:60] for x in stores)[:200], ip.lineno, "a polyshape copy owns copies of the points")
 
 
 # --------------------------------------------------------------------------- R18.2
